@@ -2,6 +2,7 @@ package protoproducer
 
 import (
 	"bytes"
+	"encoding/json"
 	"fmt"
 	"hash"
 	"hash/fnv"
@@ -173,6 +174,18 @@ func (m *ProtoProducerMessage) mapUnknown() map[string]interface{} {
 	return unkMap
 }
 
+// quoteRendered puts a rendered string between quotes. With the JSON quote it is written
+// as a JSON string literal (escaping quotes, backslashes, control characters and invalid UTF-8),
+// since renderers such as StringRenderer return arbitrary bytes from the flow.
+func quoteRendered(quotes string, rendered interface{}) string {
+	if quotes == "\"" {
+		if b, err := json.Marshal(fmt.Sprintf("%v", rendered)); err == nil {
+			return string(b)
+		}
+	}
+	return fmt.Sprintf("%s%v%s", quotes, rendered, quotes)
+}
+
 func (m *ProtoProducerMessage) FormatMessageReflectCustom(ext, quotes, sep, sign string, null bool) string {
 	vfm := reflect.ValueOf(m)
 	vfm = reflect.Indirect(vfm)
@@ -240,7 +253,7 @@ func (m *ProtoProducerMessage) FormatMessageReflectCustom(ext, quotes, sep, sign
 					}
 					renderedType := reflect.TypeOf(rendered)
 					if renderedType.Kind() == reflect.String {
-						v += fmt.Sprintf("%s%v%s", quotes, rendered, quotes)
+						v += quoteRendered(quotes, rendered)
 					} else {
 						v += fmt.Sprintf("%v", rendered)
 					}
@@ -264,7 +277,7 @@ func (m *ProtoProducerMessage) FormatMessageReflectCustom(ext, quotes, sep, sign
 			}
 			renderedType := reflect.TypeOf(rendered)
 			if renderedType.Kind() == reflect.String {
-				fstr[i] = fmt.Sprintf("%s%s%s%s%s%v%s", quotes, fieldFinalName, quotes, sign, quotes, rendered, quotes)
+				fstr[i] = fmt.Sprintf("%s%s%s%s%s", quotes, fieldFinalName, quotes, sign, quoteRendered(quotes, rendered))
 			} else {
 				fstr[i] = fmt.Sprintf("%s%s%s%s%v", quotes, fieldFinalName, quotes, sign, rendered)
 			}
